@@ -220,6 +220,23 @@ PROPS["C15"] = dict(
     assumptions=["Shutdown is called once, after every Submit has returned (the package documents no other use)"],
 )
 
+PROPS["C13"] = dict(
+    n_quick=3000, n_thorough=300000, shards=8, coq_dirs=["C13"], go_build_flags=["-race"],
+    rule="cases: (70%) tracelog histories: a handler (sync 3/4, buffered 1/4; level -4..4), 1-10 operations among WithGroup (incl. empty "
+         "name), WithAttrs (0-3 attributes), sink failure on/off, and Handle of records with levels -8..100, messages with spaces, bars "
+         "and tabs, stack-carrying errors, and 0-4 attributes over strings (quotes, backslashes, '=', '|'), ints, bools, time, nil, "
+         "LogValuer wrappers and groups nested to depth 3 with empty keys, empty groups and empty attributes; every Write to the sink is "
+         "captured separately and compared byte for byte (stack block replaced by a token); (20%) multilog over 0-4 recording children "
+         "(levels, ok/fail/panic) with Handle, WithGroup, WithAttrs and a probe of the first-made handler; (10%) 2-8 goroutines x 5-60 records "
+         "through derived handlers on one sink, sync or buffered (depth 1-64, slow sink), race detector on. non-trivial = record with "
+         "attributes or derived handler, multilog or concurrent case; distinct = distinct case text",
+    trivial_class=r"(^bad$|^exn$)",
+    trusted_base=["log/slog's own processing before the handler sees a record (Record.Attrs, Value.Resolve, GroupValue dropping empty-group members) is reproduced in the driver's parser, not verified",
+                  "strconv.Quote is modelled on printable ASCII only; stack traces are replaced by a token after checking that they are errs' own rendering",
+                  "mutual exclusion of synchronous writers is the handler's sync.Mutex, the buffered channel is Go's: modelled as atomic steps, sampled under the race detector"],
+    assumptions=["the rendering theorem is stated for attribute trees in which no group consists only of vanishing members (such a group leaves a dangling ' |': model and code agree, the flat reading does not)"],
+)
+
 # properties not (yet) claimed, with the reason; an entry is dropped automatically once the property is in PROPS
 NOT_APPLICABLE = {
     "C%02d" % i: "not yet built in this development (model and correspondence harness pending); see DESIGN.md section 22"
@@ -227,6 +244,17 @@ NOT_APPLICABLE = {
 }
 
 MANIFEST_TEXT = {
+    "C13": dict(
+        level_text="Proof: the line rendered for a record is the level tag, timestamp and message followed by every leaf attribute of the "
+                   "derivation chain and of the record exactly once, in order, prefixed by the groups in force, empty groups and the empty "
+                   "attribute omitted (refinement of the renderer's state machine to a declarative flattening, any nesting); WithGroup / "
+                   "WithAttrs never change the parent's list; in buffered mode, under any interleaving of Handle and delivery, the sink's "
+                   "writes are an in-order subsequence of whole handled records and the queue never exceeds its depth; multilog hands the "
+                   "record exactly once to each enabled child and returns nil exactly when all of them succeeded -- Coq theorems. The "
+                   "model is compared byte for byte with every Write of the real handlers; concurrent logging is sampled under -race.",
+        level_note="Partial: atomicity of concurrent Handle calls (sync.Mutex / channel) is trusted and sampled; slog's pre-processing and "
+                   "strconv.Quote beyond printable ASCII are modelled, not verified; errs' stack-trace text is compared with errs' own output.",
+        technique="Coq proof (refinement of a rendering state machine to a declarative spec; list lemmas for delivery and fan-out) on a hand-written Gallina model + differential correspondence check"),
     "C15": dict(
         level_text="Proof: over every schedule of the interleaving model (any Workers >= 1, any Depth incl. 0 and negative, any input-channel "
                    "capacity, any number of submitters): the multiset of tasks spread over programs, input channel, dispatcher's hand, "
